@@ -1369,6 +1369,12 @@ impl<'ast> LoweringContext<'ast> {
             ast::CustomType::Enum(enm) => {
                 let tcx_id = self.lookup_id.resolve_enum(enm).expect("enum is in env");
 
+                if self_param.reference.is_some() {
+                    // Enums are passed by value over FFI; the extern "C" layer would take a pointer here
+                    self.errors.push(LoweringError::Other(format!("Method `{method_full_path}` takes a reference to an enum as a self parameter, which isn't allowed")));
+                    return Err(());
+                }
+
                 let attrs = self.attr_validator.attr_from_ast(
                     &self_param.attrs,
                     &Attrs::default(),
